@@ -230,6 +230,32 @@ class SB(_ScalarLike):
     def __repr__(self):
         return 'SB(' + ir.pretty(self.n, 3) + ')'
 
+    # numpy bools take part in arithmetic as 0/1
+    def _num(self):
+        return SC(ir.rite(self.n, ir.ONE, ir.ZERO))
+
+    def __mul__(self, o):
+        if isinstance(o, SB):
+            return self & o
+        if isinstance(o, np.ndarray):
+            return NotImplemented
+        return self._num() * o
+    __rmul__ = __mul__
+
+    def __add__(self, o):
+        if isinstance(o, np.ndarray):
+            return NotImplemented
+        return self._num() + (o._num() if isinstance(o, SB) else o)
+    __radd__ = __add__
+
+    def __sub__(self, o):
+        if isinstance(o, np.ndarray):
+            return NotImplemented
+        return self._num() - (o._num() if isinstance(o, SB) else o)
+
+    def __rsub__(self, o):
+        return o - self._num()
+
     def astype_bv(self, dtype):
         return BVS(ir.bool2bv(self.n, np.dtype(dtype).itemsize * 8 if np.dtype(dtype) != np.bool_ else 8), dtype)
 
@@ -419,6 +445,17 @@ class SC(_ScalarLike):
         return SC(self.re, ir.rneg(self.im))
 
     conj = conjugate
+
+    def __mod__(self, o):
+        # only `angle % (2*pi*k)`: the representative changes, cos/sin do not; the engine keeps the angle itself
+        from . import transc
+        o = as_sc(o)
+        if o is not NotImplemented and o.isconst and o.isreal and self.isreal:
+            m = transc.pi_multiple(o.re.val)
+            if m is not None and m != 0 and m.denominator == 1 and m.numerator % 2 == 0:
+                CTX.notes.append('angle % (2 pi k) is modelled as the same angle (only its cos/sin are used afterwards)')
+                return self
+        raise EngineError('modulo of a symbolic real')
 
     @property
     def real(self):
